@@ -140,10 +140,12 @@ var headerKeys = []string{"Content-Type", "content-type", "CONTENT-TYPE", "X-Req
 var headerVals = []string{"text/plain", "application/json; charset=utf-8", "8080", "Bearer abc:def", "a:b:c", "x", "a b  c", "\"quoted\"", "ünï", "v=1;w=2", "http://h:80/p?q=1"}
 var HeaderSpaces = []string{"", " ", "  ", "\t", " \t ", " ", " "}
 
+// HeaderMalformed: values that are not "Key: value" with a non-empty key and value.
+var HeaderMalformed = []string{"", ":", " : ", "novalue", "Key", "Key:", "Key:   ", ":value", "  :value", "Key :\t", "\u00a0:\u00a0", "\u00a0:\u2003", "Key:\u00a0"}
+
 func Header(r *kit.Rng) HeaderCase {
 	if r.Chance(0.15) {
-		t := r.PickStr([]string{"", ":", " : ", "novalue", "Key", "Key:", "Key:   ", ":value", "  :value", "Key :\t", " : "})
-		return HeaderCase{Text: t}
+		return HeaderCase{Text: r.PickStr(HeaderMalformed)}
 	}
 	k, v := r.PickStr(headerKeys), r.PickStr(headerVals)
 	if r.Chance(0.2) {
